@@ -132,7 +132,12 @@ def run(prop, workdir, alts=None):
         if os.path.exists(exe):
             os.remove(exe)          # never run a stale binary
         feat = ["--no-default-features"] if b.startswith(("f0_", "nf0_")) else []
-        rc, log = _sh(["cargo", "build", "--offline", "--quiet", "--bin", b] + feat, PROBES)
+        try:
+            rc, log = _sh(["cargo", "build", "--offline", "--quiet", "--bin", b] + feat, PROBES, timeout=1200)
+        except subprocess.TimeoutExpired:
+            failures.append((b, "compiling the probe against this checkout does not terminate (20 min)", src))
+            cov["probes"].append({"bin": b, "kind": "compile", "result": "timeout"})
+            continue
         if b.startswith(("n_", "nf0_")):
             exp = expectations(b)
             if rc == 0:
@@ -155,7 +160,12 @@ def run(prop, workdir, alts=None):
             failures.append((b, "probe does not compile against this checkout: " + first[:200], src))
             cov["probes"].append({"bin": b, "kind": "compile+run", "result": "compile error"})
             continue
-        p = subprocess.run([exe], stdout=subprocess.PIPE, stderr=subprocess.STDOUT, text=True, timeout=300)
+        try:
+            p = subprocess.run([exe], stdout=subprocess.PIPE, stderr=subprocess.STDOUT, text=True, timeout=300)
+        except subprocess.TimeoutExpired:
+            failures.append((b, "probe does not terminate when run (5 min)", src))
+            cov["probes"].append({"bin": b, "kind": "compile+run", "result": "timeout"})
+            continue
         m = re.search(r"cases=(\d+) failed=(\d+)", p.stdout)
         n = int(m.group(1)) if m else 0
         cov["cases"] += n
